@@ -315,7 +315,7 @@ func checkC04(p *Prog, r *Report) {
 	r.NotCov = append(r.NotCov,
 		"the classifier's verdict on statement text (C06)",
 		"what a backend actually applied; user-supplied RetryPolicy implementations",
-		"the window in ClientConn.Send where a request whose write failed stays registered on the closing connection")
+		"requests whose statement text the classifier mis-reads (C06)")
 	rr := requestRoles(p)
 	name := rr.req.Obj().Name()
 
